@@ -1,10 +1,19 @@
 ------------------------------ MODULE Dtx_mc ------------------------------
 (* Exhaustive check of the DTX design: every packet duration, both detectors, every way the   *)
 (* encoder may cut a packet into sub-frames, every activity schedule (the state is bounded, so *)
-(* the breadth-first search closes: schedules of any length are covered).                      *)
+(* the breadth-first search closes: schedules of any length are covered).  The application may *)
+(* also switch DTX off and on again between any two packets (OPUS_SET_DTX): with DTX off the    *)
+(* generalised detector's counter is cleared on every coded sub-frame and no packet is a DTX    *)
+(* packet, while the speech layer's counter keeps running (its DTX flag is masked by the        *)
+(* setting at the start of every call) - src/opus_encoder.c "else nb_no_activity_ms_Q1 = 0",    *)
+(* silk/enc_API.c "inDTX = useDTX".                                                              *)
 EXTENDS Dtx, TLC
-VARIABLES d, det, ctr, since, sawDtx, clean, run, kind, lastSilent, okU, okL, okR, okF, okA
-vars == <<d, det, ctr, since, sawDtx, clean, run, kind, lastSilent, okU, okL, okR, okF, okA>>
+CONSTANT MaxTog     \* how many times the application may change the DTX setting in one behaviour
+VARIABLES d, det, ctr, since, sawDtx, clean, run, kind, lastSilent, okU, okL, okR, okF, okA,
+          on,      \* the DTX setting
+          tog,     \* the setting was changed in the middle of the current silent stretch
+          ntog     \* changes so far
+vars == <<d, det, ctr, since, sawDtx, clean, run, kind, lastSilent, okU, okL, okR, okF, okA, on, tog, ntog>>
 
 CAP == 2000
 
@@ -12,14 +21,17 @@ Init == /\ d \in Durations /\ det \in {"gen", "silk"}
         /\ ctr = 0 /\ since = 0 /\ sawDtx = FALSE /\ clean = TRUE /\ run = 0
         /\ kind = "none" /\ lastSilent = FALSE
         /\ okU = TRUE /\ okL = TRUE /\ okR = TRUE /\ okF = TRUE /\ okA = TRUE
+        /\ on \in (IF MaxTog = 0 THEN {TRUE} ELSE BOOLEAN) /\ tog = FALSE /\ ntog = 0
 
 Packet(split, acts, noisy) ==
   LET n == Len(split)
-      r == IF det = "gen" THEN GenPacket(ctr, split, acts) ELSE SilkPacket(ctr, n, acts)
+      r == IF det = "gen" THEN (IF on THEN GenPacket(ctr, split, acts) ELSE [ctr |-> 0, all |-> FALSE, any |-> FALSE])
+                           ELSE SilkPacket(ctr, n, acts)
       silent == (\A i \in 1..n : ~acts[i]) /\ ~noisy
       allActive == \A i \in 1..n : acts[i]
-      isDtx == r.all
+      isDtx == on /\ r.all
   IN /\ ctr' = r.ctr
+     /\ UNCHANGED <<on, ntog>> /\ tog' = (silent /\ tog)
      /\ since' = IF silent THEN (IF since + d > CAP THEN CAP ELSE since + d) ELSE 0
      /\ sawDtx' = IF silent THEN sawDtx \/ isDtx ELSE FALSE
      /\ clean' = IF silent THEN clean ELSE allActive
@@ -27,23 +39,30 @@ Packet(split, acts, noisy) ==
      /\ kind' = IF isDtx THEN "dtx" ELSE "regular"
      /\ lastSilent' = silent
      \* start clause: generalised detector, digital silence
-     /\ okU' = ((det = "gen" /\ silent) => StartUpperOK(since, sawDtx, isDtx))
-     /\ okL' = ((det = "gen" /\ silent /\ clean) => StartLowerOK(since, sawDtx, isDtx, d))
+     \* (stated for silence that begins, and stays, under DTX enabled: not after a change of the setting inside it)
+     /\ okU' = ((det = "gen" /\ on /\ ~tog /\ silent) => StartUpperOK(since, sawDtx, isDtx))
+     /\ okL' = ((det = "gen" /\ on /\ ~tog /\ silent /\ clean) => StartLowerOK(since, sawDtx, isDtx, d))
      /\ okR' = RunBoundOK(run', d)
      \* the in-DTX query is true on every DTX packet
      /\ okF' = (isDtx => IF det = "gen" THEN GenInDtx(ctr') ELSE SilkInDtx(ctr'))
      \* renewed activity is coded at once
      /\ okA' = (allActive => ~isDtx)
 
-Next == /\ UNCHANGED <<d, det>>
+Toggle == /\ ntog < MaxTog /\ ntog' = ntog + 1
+          /\ on' = ~on /\ tog' = (tog \/ since > 0)
+          /\ run' = IF on THEN 0 ELSE run          \* switched off: whatever follows is not a DTX packet
+          /\ UNCHANGED <<d, det, ctr, since, sawDtx, clean, kind, lastSilent, okU, okL, okR, okF, okA>>
+
+Pkt ==  /\ UNCHANGED <<d, det>>
         /\ IF det = "gen"
              THEN \E split \in GenSplits(d) : \E acts \in [1..Len(split) -> BOOLEAN], noisy \in BOOLEAN :
                      Packet(split, acts, noisy)
              ELSE \E acts \in [1..SilkFrames(d) -> BOOLEAN], noisy \in BOOLEAN :
                      Packet(Rep(0, SilkFrames(d)), acts, noisy)
 
+Next == Pkt \/ Toggle
 Spec     == Init /\ [][Next]_vars
-FairSpec == Spec /\ WF_vars(Next)
+FairSpec == Spec /\ WF_vars(Pkt)
 
 StartsOnTime  == okU /\ okL
 RunBound      == okR
@@ -53,5 +72,5 @@ CounterBound  == IF det = "gen" THEN ctr \in 0..(BEFORE + MAXRUN) ELSE ctr \in 0
 \* under endless digital silence a regular (refresh) packet is sent again and again
 RefreshForever == (<>[]lastSilent) => ([]<>(kind = "regular"))
 \* ... and DTX packets too (the encoder does not fall back to continuous transmission)
-DtxForever     == (<>[]lastSilent) => ([]<>(kind = "dtx"))
+DtxForever     == ((<>[]lastSilent) /\ (<>[]on)) => ([]<>(kind = "dtx"))
 =============================================================================
